@@ -175,6 +175,8 @@ func coqVal(v *Val) string {
 		return fmt.Sprintf("(VObj %d 0)", v.P)
 	case "goerr":
 		return fmt.Sprintf("(VGoErr 0 %s)", coqErr(v.E))
+	case "hostobj":
+		return fmt.Sprintf("(VObj %d 0)", 100+v.P)
 	}
 	panic("bad val")
 }
@@ -295,6 +297,7 @@ type runner struct {
 	catchAt  map[int]bool // JS frames whose catch ran
 	throwLn  map[int]int  // line of the (re)throw statement of JS frame i
 	thLine   int
+	thFn     string // name of the function containing the throw statement
 	forofLn  map[int]bool // lines of the for-of statements that drive a generator body
 }
 
@@ -433,6 +436,16 @@ func (r *runner) mkVal(v *Val) goja.Value {
 		return x
 	case "goerr":
 		return r.vm.NewGoError(r.goErr(v.E))
+	case "hostobj":
+		// an Error object built by the embedder while nothing is executing (mkVal is only called during set-up)
+		if v.P == 2 {
+			return r.vm.NewTypeError("host-built %d", 1)
+		}
+		o, err := r.vm.New(r.vm.Get("Error"), r.vm.ToValue("host-built"))
+		if err != nil {
+			panic(err)
+		}
+		return o
 	}
 	panic("bad val")
 }
@@ -675,6 +688,11 @@ func runCase(c0 Case) vh.Record {
 		_, err := vm.RunString("throw PAYLOAD")
 		r.preExc = err.(*goja.Exception)
 	}
+	if c.Th.T == "jsthrow" && c.Th.V.Kind == "hostobj" {
+		vm.Set("PAYLOAD", r.mkVal(c.Th.V))
+		p := vm.Get("PAYLOAD")
+		vm.Set("GETP", func(goja.FunctionCall) goja.Value { return p })
+	}
 	if c.Th.T == "jsthrow" && c.Th.V.Kind == "goerr" {
 		if c.Th.V.E.Base == "exc" {
 			// the GoError payload wraps the pre-made exception; PAYLOAD must name the GoError itself
@@ -803,8 +821,24 @@ func runCase(c0 Case) vh.Record {
 			r.thLine = emit(fmt.Sprintf("PAYLOAD = %s; throw PAYLOAD;", objSrc[c.Th.V.P]))
 		case "goerr":
 			r.thLine = emit("throw PAYLOAD;")
+		case "hostobj":
+			// the host-built error reaches the throw statement through a global, a native's return value or an argument
+			switch c.Th.X % 3 {
+			case 0:
+				r.thLine = emit("throw PAYLOAD;")
+			case 1:
+				r.thLine = emit("throw GETP();")
+			default:
+				emit("throwArg(PAYLOAD);")
+				r.thFn = "throwArg"
+			}
 		}
 		emit("}")
+		if r.thFn == "throwArg" {
+			emit("function throwArg(a) {")
+			r.thLine = emit("throw a;")
+			emit("}")
+		}
 	case "jsinternal":
 		emit(fmt.Sprintf("function F%d() {", n))
 		r.thLine = emit(internalSrc[c.Th.X])
@@ -910,6 +944,11 @@ func runCase(c0 Case) vh.Record {
 				isPayload = true
 				errObj = c.Th.V.P >= 1
 			}
+		case c.Th.V.Kind == "goerr" || c.Th.V.Kind == "hostobj":
+			// host-built Error object: no recorded stack, behaves like a non-Error payload at a throw statement
+			if p := vm.Get("PAYLOAD"); p != nil && p.SameAs(hv) {
+				isPayload = true
+			}
 		case c.Th.V.Kind == "prim":
 			anyNew := false
 			for _, f := range r.frames {
@@ -920,6 +959,10 @@ func runCase(c0 Case) vh.Record {
 			if !anyNew && r.prims[c.Th.V.P].SameAs(hv) {
 				isPayload = true
 			}
+		}
+		wantFn := r.thFn
+		if wantFn == "" {
+			wantFn = fmt.Sprintf("F%d", n)
 		}
 		if isPayload {
 			if errObj {
@@ -935,6 +978,7 @@ func runCase(c0 Case) vh.Record {
 				for i := 0; i < n; i++ { // outermost executed rethrow wins
 					if r.frames[i].Catch == "rethrow" && r.catchAt[i] {
 						want = r.throwLn[i]
+						wantFn = fmt.Sprintf("F%d", i)
 						break
 					}
 				}
@@ -949,9 +993,9 @@ func runCase(c0 Case) vh.Record {
 			if len(st) == 0 {
 				posOK = false
 				posNote = "empty stack"
-			} else if p := st[0].Position(); p.Line != want {
+			} else if p := st[0].Position(); p.Line != want || (c.Th.T == "jsthrow" && st[0].FuncName() != wantFn) {
 				posOK = false
-				posNote = fmt.Sprintf("top frame at line %d col %d (%s), throw site line %d", p.Line, p.Column, st[0].FuncName(), want)
+				posNote = fmt.Sprintf("top frame at line %d col %d (%s), throw site line %d (%s)", p.Line, p.Column, st[0].FuncName(), want, wantFn)
 				if r.forofLn[p.Line] {
 					// the top frame is a for-of statement whose iterator's next() threw
 					posNote = "AT-FOROF-STATEMENT " + posNote
@@ -965,6 +1009,13 @@ func runCase(c0 Case) vh.Record {
 		term = fmt.Sprintf("mkCase %s [] OHBroken true", coqChain(c))
 	}
 	tags := []string{"th:" + c.Th.T, "entry:" + c.Entry, "host:" + hostClass, fmt.Sprintf("depth:%d", n)}
+	if c.Th.V != nil && (c.Th.V.Kind == "hostobj" || c.Th.V.Kind == "goerr") {
+		t := "payload:host-built-" + c.Th.V.Kind
+		if c.Th.T == "jsthrow" && c.Th.V.Kind == "hostobj" {
+			t += []string{"-via-global", "-via-return-value", "-via-argument"}[c.Th.X%3]
+		}
+		tags = append(tags, t)
+	}
 	if c.HasPost {
 		tags = append(tags, "promise-job")
 		if c.Async {
@@ -1025,6 +1076,9 @@ func runCase(c0 Case) vh.Record {
 // generation
 
 func genVal(r *vh.Rng, allowGoErr bool) *Val {
+	if allowGoErr && r.Chance(14) {
+		return &Val{Kind: "hostobj", P: 1 + r.Intn(2)}
+	}
 	switch r.Pick(4, 5, 2) {
 	case 0:
 		return &Val{Kind: "prim", P: r.Intn(len(primSrc))}
@@ -1138,6 +1192,7 @@ func genCase(r *vh.Rng, idx int) Case {
 	switch c.Th.T {
 	case "jsthrow":
 		c.Th.V = genVal(r, true)
+		c.Th.X = r.Intn(3)
 		if c.Th.V.Kind == "goerr" && r.Chance(30) {
 			c.Th.V.E = genErr(r, false, true)
 		}
